@@ -160,6 +160,11 @@ public:
     double t_avg_MGC_residual;
     double t_avg_MGC_directSolver;
 
+#ifdef GMGPOLAR_VERIF
+    /* Verification hook (off by default): lets an external harness reach private members. */
+    friend struct GMGPolarVerifAccess;
+#endif
+
 private:
     /* --------------- */
     /* Grid Parameters */
